@@ -19,7 +19,7 @@ import (
 
 func TestC09(t *testing.T) {
 	e := vlib.GetEnv()
-	n := e.Pick(48, 1200)
+	n := e.Pick(48, 10000)
 	vlib.RunCases(t, "C09", "contexts", n, func(c *vlib.Case) vlib.Result {
 		var res vlib.Result
 		kc := genKCase(c.Rng, map[string]bool{"watch-faults": c.Index%5 == 4})
